@@ -390,7 +390,7 @@ func (g *c11Gen) genFieldItem(lex *c11Obj) *c11Item {
 			if seg == "" {
 				continue
 			}
-			w := uint32(r.PickInt([]int{1, 3, 8, 16, 32, 63, 64, 65, 300, 4095, 4096, 70000}))
+			w := uint32(r.PickInt([]int{1, 3, 8, 16, 32, 63, 64, 65, 300, 4095, 4096, 70000, 1, 8, 16, 32, 0xfffff, 0x100000, 1100000, 0xfffffff}))
 			u := &c11Obj{kind: c11KFieldUnit, seg: seg, parent: lex, table: g.table, form: "fieldunit", isBankUnit: it.kind == 4}
 			u.funit = &c11FieldInfo{bitOffset: bit, width: w, atype: atype, attrib: attrib, alen: alen, lock: lock, update: update, hasConn: hasConn, connObj: conn, connBuf: connB, fieldDecl: it}
 			lex.kids = append(lex.kids, u)
@@ -399,7 +399,7 @@ func (g *c11Gen) genFieldItem(lex *c11Obj) *c11Item {
 			bit += w
 			g.feat["fieldunit"]++
 		case x < 7:
-			w := uint32(r.PickInt([]int{1, 7, 8, 63, 64, 1000, 5000}))
+			w := uint32(r.PickInt([]int{1, 7, 8, 63, 64, 1000, 5000, 70000, 0x100000, 0x2345678}))
 			it.fields = append(it.fields, c11Field{kind: 1, width: w})
 			bit += w
 			g.feat["field_reserved"]++
